@@ -23,7 +23,7 @@ type Node struct {
 // Fork forks the node to a new node, copy underlying data as well
 func (self Node) Fork() Node {
 	ret := self
-	buf := make([]byte, self.l, self.l)
+	buf := make([]byte, self.l, self.l+1)
 	copy(buf, rt.BytesFrom(self.v, self.l, self.l))
 	ret.v = rt.GetBytePtr(buf)
 	return ret
@@ -117,7 +117,8 @@ func (self *Node) replace(o Node, n Node) error {
 	l2 := int(self.offset() - uintptr(o.offset()))
 
 	// copy three slices into new buffer
-	buf := make([]byte, l0+l1+l2)
+	// NOTICE: one spare byte keeps a position pointer at the end of the data (see errNotFoundLast) inside the allocation
+	buf := make([]byte, l0+l1+l2, l0+l1+l2+1)
 	if l0 > 0 {
 		copy(buf[:l0], rt.BytesFrom(self.v, l0, l0))
 	}
@@ -183,7 +184,7 @@ func (self *Node) replaceMany(ps *pnSlice) error {
 	ps.Sort()
 
 	// sequentially set new values into buffer according to sorted pathes
-	buf = make([]byte, 0, self.l)
+	buf = make([]byte, 0, self.l+1)
 	offset := int(0)
 	for i := 0; i < len(ps.a); i++ {
 		// copy (a[i-1]tail, a[i]head) into buffer
